@@ -15,13 +15,17 @@ META = {
              "string is built through ~20 construction paths (literal, explicit cons cells, =.., functor/arg, atom_chars, findall, append, copy_term, "
              "assert/retrieve, partial_string/3, clause head/body, unaligned suffixes at every offset, two-segment strings) and 22 operations must give "
              "the same observation for every pair of paths, and that observation is compared in Coq with the prediction on character lists; partial "
-             "strings with unbound/bound tails likewise (==, compare, =, term_variables, ground, length); the real heap is driven through a hook and its "
-             "bytes and scan results are compared in Coq with encode_segment / scan."),
+             "strings with unbound/bound tails likewise (==, compare, =, term_variables, ground, length; the predictor of = is proved sound: punify_sound); the "
+             "real heap is driven through a hook and its bytes and scan results are compared in Coq with encode_segment / scan / compute_pstr_size."),
     "note": ("Trusted: Coq kernel + vm_compute; the models of the layout are mirrors of heap.rs (push_pstr_segment, push_pstr, scan_slice_to_str, "
              "pstr_tail_idx, compare_pstr_slices with its last arm -- the utf8_chunks window -- abstracted to the comparison of the bytes at the first "
              "difference, which is what it computes on valid UTF-8); HeapPStrIter, unify_partial_string and the copier are NOT mirrored (no "
              "pstr_unify_is_list_unify / copy_preserves_string theorem): they are covered only by the behavioural correspondence. The heap base is "
-             "assumed 8-aligned. writeq text is compared between construction paths only (not predicted). No axioms."),
+             "assumed 8-aligned. writeq text is compared between construction paths only (not predicted). For strings of 4095-4097 characters the quadratic "
+             "observation (all splits by append/3) is skipped. The smallest code points of each UTF-8 length (U+0080, U+0800, U+10000: encodings ending in "
+             "0x80 bytes) are confined to a fixed class of cases (`edge`) because they trigger a known panic of the term copier; there the two operations "
+             "that copy string suffixes (findall/3, all splits by append/3) are run alone. A query that panics is re-run operation by operation to name the "
+             "operation. No axioms."),
     "technique": ("Coq proof (scan_encode, segment_cells_agree, tail_idx_two_formulas_agree, cmp_slices_byte_lex, utf8_preserves_order, "
                   "pstr_compare_is_list_compare, chars_of_cells, count_cells_is_cells_written, punify_sound) over an impl-mirror model + differential "
                   "correspondence evaluated in Coq"),
@@ -72,10 +76,10 @@ c20_b(G, R) :- catch(( G -> R = true ; R = false ), error(E, _), R = err(E)).
 c20_obs(Big, A, B, K, o(U,E,O,Lt,N,App,Spl,Nth,H,T,Ar,Nm,Un,Cp,Fa,As,Ac,So,Ks,G,TV,W)) :-
     c20_op(unify, Big, A, B, K, U), c20_op(eq, Big, A, B, K, E), c20_op(compare, Big, A, B, K, O), c20_op(lt, Big, A, B, K, Lt),
     c20_op(length, Big, A, B, K, N), c20_op(append, Big, A, B, K, App),
-    (  Big == true -> Spl = skipped ; c20_op(append_splits, Big, A, B, K, Spl) ),
+    (  ( Big == true ; Big == edge ) -> Spl = skipped ; c20_op(append_splits, Big, A, B, K, Spl) ),
     c20_op(nth0, Big, A, B, K, Nth), c20_op(arg1, Big, A, B, K, H), c20_op(arg2, Big, A, B, K, T),
     c20_op(functor_arity, Big, A, B, K, Ar), c20_op(functor_name, Big, A, B, K, Nm), c20_op(univ, Big, A, B, K, Un),
-    c20_op(copy_term, Big, A, B, K, Cp), c20_op(findall, Big, A, B, K, Fa), c20_op(assert_retrieve, Big, A, B, K, As),
+    c20_op(copy_term, Big, A, B, K, Cp), ( Big == edge -> Fa = skipped ; c20_op(findall, Big, A, B, K, Fa) ), c20_op(assert_retrieve, Big, A, B, K, As),
     c20_op(atom_chars, Big, A, B, K, Ac), c20_op(sort, Big, A, B, K, So), c20_op(keysort, Big, A, B, K, Ks),
     c20_op(ground, Big, A, B, K, G), c20_op(term_variables, Big, A, B, K, TV), c20_op(writeq, Big, A, B, K, W).
 
@@ -244,7 +248,7 @@ def gen_closed_cases(rng, ctx):
     def add(a, b, cls, big=False):
         k = rng.choice([0, 0, max(0, len(a) - 1), len(a), rng.randint(0, len(a) + 1)])
         cases.append({"a": a, "b": b, "k": k, "cls": cls, "big": big})
-    rounds = ctx.scale(2, 8)
+    rounds = ctx.scale(2, 24)
     for _ in range(rounds):
         # (i) every length 0..20, (ii) 8k-1, 8k, 8k+1 for k <= 9
         lens = list(range(0, 21)) + sorted({8 * k + d for k in range(3, 10) for d in (-1, 0, 1)})
@@ -275,7 +279,8 @@ def gen_closed_cases(rng, ctx):
             add(a, b, "random:" + alpha)
     # (viii) the smallest code point of each UTF-8 length (encodings ending in 0x80 bytes) right across a cell boundary: fixed cases
     for a in ["abcdefg" + EDGE[1] + "xy", "abcdef" + EDGE[2] + "xy", "abcdefg" + EDGE[0] + "@xy", "abcdefghijklmno" + EDGE[1] + EDGE[2] + "z",
-              "ab" + EDGE[1] + "xyz", "abcd" + EDGE[1] + "xyz", "a" + EDGE[2] + "xyz"]:
+              "ab" + EDGE[1] + "xyz", "abcd" + EDGE[1] + "xyz", "a" + EDGE[2] + "xyz"] + \
+             ["abcdefgh"[:j] + e + tail for j in (5, 6, 7, 8) for e in EDGE for tail in ("", "@x")]:
         cases.append({"a": a, "b": a, "k": 8, "cls": "edge", "big": False})
     # (iii) 4095..4097
     for n in (4095, 4096, 4097):
@@ -290,7 +295,7 @@ def gen_closed_cases(rng, ctx):
 def gen_tail_cases(rng, ctx):
     """suffixes of strings: base length 7..17, every offset 0..9; both sides are tails taken from literals / atom_chars strings"""
     cases = []
-    for _ in range(ctx.scale(2, 8)):
+    for _ in range(ctx.scale(2, 24)):
         for n in range(7, 18):
             for off in range(0, 10):
                 if off > n: continue
@@ -352,7 +357,7 @@ def reps_partial(pre, kind, T, rng):
 
 def gen_partial_cases(rng, ctx):
     cases = []
-    for _ in range(ctx.scale(2, 8)):
+    for _ in range(ctx.scale(2, 24)):
         lens = list(range(0, 13)) + [15, 16, 17, 23, 24, 25]
         for n in lens:
             for alpha in ("ascii", "mixed", "nul"):
@@ -435,7 +440,8 @@ def decode_obs(o, share=None):
     else:
         bad.append(("functor_name", terms.to_prolog(a[11]))); f["o_name"] = "[]"
     f["o_univ"] = integer(12)
-    f["o_copy"] = chars(13); f["o_findall"] = chars(14); f["o_assert"] = chars(15); f["o_atomchars"] = chars(16)
+    f["o_copy"] = chars(13); f["o_assert"] = chars(15); f["o_atomchars"] = chars(16)
+    f["o_findall"] = "None" if a[14] == ("atom", "skipped") else "(Some %s)" % chars(14)
     f["o_sort"] = chars(17); f["o_ksort"] = chars(18); f["o_ground"] = boolean(19); f["o_nvars"] = integer(20)
     wl = codelist(some(a[21]))
     wtext = "".join(map(chr, wl)) if wl is not None else None
@@ -517,10 +523,10 @@ def run_queries(ctx, queries, tag, per_job=150):
     """queries: list of (qid, text, extra_consult). Returns {qid: first answer (json) or a dict describing why there is none}.
     (The harness rebuilds the machine and consults the job's text again after a panic.)"""
     out = {}
-    alone = [q for q in queries if q[2].startswith("% alone")]     # known to panic: one fresh machine each, so that the outcome does not depend on the seed
+    alone = [q for q in queries if q[2].startswith("% alone")]     # may panic: kept apart (in a fixed order) so that the outcome does not depend on the seed
     heavy = [q for q in queries if len(q[1]) > 3000 and q not in alone]       # long strings: spread over many small jobs
     light = [q for q in queries if len(q[1]) <= 3000 and q not in alone]
-    chunks = [light[j:j + per_job] for j in range(0, len(light), per_job)] + [heavy[j:j + 4] for j in range(0, len(heavy), 4)] + [[q] for q in alone]
+    chunks = [light[j:j + per_job] for j in range(0, len(light), per_job)] + [heavy[j:j + 4] for j in range(0, len(heavy), 4)] + [alone[j:j + 8] for j in range(0, len(alone), 8)]
     jobs = []
     for n, chunk in enumerate(chunks):
         consult = LIB + "".join(q[2] for q in chunk if q[2])
@@ -629,11 +635,12 @@ def run(ctx):
     # ============================================================ A + B: closed strings
     cases = gen_closed_cases(rng, ctx)
     tcases = gen_tail_cases(rng, ctx)
-    queries, clause_queries = [], []          # (qid, text, consult)
+    queries, clause_queries, isolated = [], [], []          # (qid, text, consult)
     qinfo, qparts = {}, {}                    # qid -> (case index, kind_a, kind_b) ; qid -> (prefix, op -> final goal)
     allcases = []
+    edge_extra = {}          # qid of an edge bundle -> {op: qid of the isolated query}
     def addq(lst, qid, prefix, big, k, consult, info):
-        bigt = "true" if big else "false"
+        bigt = big if isinstance(big, str) else ("true" if big else "false")
         prefix = "findall(O1, (" + prefix
         lst.append((qid, "%sc20_obs(%s, A, B, %d, O1)), [O])." % (prefix, bigt, k), consult))
         qinfo[qid] = info
@@ -646,17 +653,27 @@ def run(ctx):
         dist["byte_len_mod8"][m] = dist["byte_len_mod8"].get(m, 0) + 1
         if "base_a" in c:
             ra, rb = reps_tail(c["base_a"], c["off_a"], rng), reps_tail(c["base_b"], c["off_b"], rng)
-            pairs = rng.sample([(x, y) for x in ra[:5] for y in rb[:5]], 14) + [(ra[5], y) for y in rng.sample(rb[:5], 3)] + [(x, rb[6]) for x in rng.sample(ra[:5], 3)]
+            pairs = rng.sample([(x, y) for x in ra[:5] for y in rb[:5]], 10) + [(ra[5], y) for y in rng.sample(rb[:5], 2)] + [(x, rb[6]) for x in rng.sample(ra[:5], 2)]
         else:
             ra, rb = reps_closed(a, rng, big, c["cls"] == "edge"), reps_closed(b, rng, big, c["cls"] == "edge")
             if big:
                 pairs = [(ra[0], rb[0])] + [(ra[0], y) for y in rng.sample(rb[1:], 3)] + [(x, rb[0]) for x in rng.sample(ra[1:], 3)] + [(ra[4], rb[5]), (ra[6], rb[4])]
             else:
-                pairs = [(ra[0], rb[0])] + [(ra[0], y) for y in rng.sample(rb[1:], 8)] + [(x, rb[0]) for x in rng.sample(ra[1:], 8)] + [(rng.choice(ra), rng.choice(rb)) for _ in range(5)]
-            if c["cls"] == "edge":      # fixed: every construction path of a against the literal b
-                pairs = [(x, rb[0]) for x in ra]
+                pairs = [(ra[0], rb[0])] + [(ra[0], y) for y in rng.sample(rb[1:], 6)] + [(x, rb[0]) for x in rng.sample(ra[1:], 6)] + [(rng.choice(ra), rng.choice(rb)) for _ in range(4)]
+            if c["cls"] == "edge":      # fixed: construction paths of a against the literal b
+                pairs = [(x, rb[0]) for x in (ra if len(allcases) % 4 == 0 else [ra[0], ra[2], ra[4], ra[5], ra[6], ra[1]])]
         for (ka, ga), (kb, gb) in pairs:
-            addq(queries, "c%d_%d" % (ci, len(queries)), "%s, %s, " % (ga("A"), gb("B")), big, c["k"], "% alone\n" if c["cls"] == "edge" else "", (ci, ka, kb))
+            qid = "c%d_%d" % (ci, len(queries))
+            if c["cls"] == "edge":
+                # the two operations known to panic on these strings run alone on fresh machines; all others in the bundle
+                addq(queries, qid, "%s, %s, " % (ga("A"), gb("B")), "edge", c["k"], "", (ci, ka, kb))
+                edge_extra[qid] = {}
+                for op in ("append_splits", "findall"):
+                    xid = "%s_%s" % (qid, op)
+                    isolated.append((xid, qparts[qid][0] + "c20_op(%s, false, A, B, %d, O1)), [O])." % (op, c["k"]), "% alone\n"))
+                    edge_extra[qid][op] = xid
+            else:
+                addq(queries, qid, "%s, %s, " % (ga("A"), gb("B")), big, c["k"], "", (ci, ka, kb))
         # strings in clause heads / bodies (separate jobs: a rejected clause must not disturb the others)
         if not big and "base_a" not in c and rng.random() < 0.5:
             n = len(clause_queries)
@@ -668,6 +685,19 @@ def run(ctx):
     dist["rep_pairs"] = len(queries) + len(clause_queries)
     answers = run_queries(ctx, queries, "qa", per_job=ctx.scale(200, 400))
     answers.update(run_queries(ctx, clause_queries, "qk", per_job=40))
+    ians = run_queries(ctx, isolated, "qi")
+    itext = {q[0]: q[1] for q in isolated}
+    for qid, extra in edge_extra.items():
+        ci, ka, kb = qinfo[qid]
+        ans = answers.get(qid)
+        for op, xid in extra.items():
+            xa = ians.get(xid)
+            if panic_class(xa) is not None:
+                fail(shape_key(op, ka, kb), "operation `%s` on a string panics" % op, itext[xid][:700], "panic: " + str(xa["panic"])[:200], "the result the operation gives on the character list")
+            elif isinstance(xa, dict) and "b" in xa and "O" in xa["b"] and isinstance(ans, dict) and "b" in ans and "O" in ans["b"]:
+                ans["b"]["O"]["c"][1 + FIELDS.index(op)] = xa["b"]["O"]       # the observation of the operation run alone completes the bundle
+            else:
+                fail(shape_key(op, ka, kb), "operation `%s` on a string gave no result" % op, itext[xid][:700], json.dumps(xa, ensure_ascii=False)[:300], "the result the operation gives on the character list")
     allq = queries + clause_queries
     phase["closed_queries"] = round(time.time() - t_start, 1)
     panicking = sample_panics(allq, answers, qinfo)
@@ -827,7 +857,7 @@ def run(ctx):
     allb = bools + pbools + lbools
     heavy_i = [i for i in range(len(allb)) if len(allb[i]) > 20000]
     light_i = [i for i in range(len(allb)) if len(allb[i]) <= 20000]
-    chunk = ctx.scale(110, 400)
+    chunk = ctx.scale(170, 400)
     order = []
     while light_i or heavy_i:        # at most two long-string evaluations per shard (parsing their literals dominates)
         take = heavy_i[:2]; heavy_i = heavy_i[2:]
@@ -895,7 +925,7 @@ def run(ctx):
     return {"evaluations": evaluations, "distinct_nontrivial": distinct,
             "rule": ("closed cases (a, near-twin b, index k): lengths 0-20, 8k-1/8k/8k+1 (k<=9), 4095-4097, ASCII / multi-byte (2,3,4-byte characters, also straddling "
                      "cell boundaries) / NUL at start, middle, end, consecutive; tails at every offset 0..9 of strings of length 7..17; each case is observed under "
-                     "30-60 pairs of construction paths (rep_pairs queries in all) by 22 operations; all observations of a case must coincide (each distinct "
+                     "14-18 pairs of construction paths (rep_pairs queries in all) by 22 operations; all observations of a case must coincide (each distinct "
                      "observation is one Coq evaluation against predict; evaluations counts those plus the partial and layout evaluations). Partial cases: open "
                      "lists with variable / same variable / [] / atom / integer tails through 9 construction paths. Layout: allocate_pstr + dump + scan at every "
                      "character boundary. Non-trivial = distinct case with a non-empty string."),
